@@ -278,6 +278,12 @@ def run(cx):
     obligations += len(cx.instances[-1].sites)
     from props.shared import removal_implies_fin
     removal_implies_fin(cx, "C19.g")
+    # "released ... with the size it was allocated with", at the library's own level: the sender's budget gets back what
+    # was charged; and an abandoned handshake is forgotten (its state dropped) whatever the error-reporting flag says
+    from props.C06 import inst_sender_alloc_pair
+    inst_sender_alloc_pair(cx, "C19.h")
+    from props.C17 import timers_scheduled
+    timers_scheduled(cx, "C19.i")
     obligations += len(cx.instances[-1].sites)
     cx.extra["obligations"] = obligations
 
